@@ -59,7 +59,7 @@ Definition c17_direct_spec (name : bytes) (accepted : bool) : list bytes :=
 (* PUT /<name>: returns new model state and mismatches *)
 Definition c17_put_model (existing : list bytes) (name : bytes) (status : Z) (code : bytes)
   : list bytes * list bytes :=
-  let '(st', ok) := create_bucket existing name in
+  let '(st', ok) := name_create existing name in
   (st',
    if ok then expect (status =? 200) "status"
    else if validate name
